@@ -8,5 +8,6 @@ CONSTANTS
   GenKinds = {"use", "forward", "import", "loadcss"}
   GenSpellings = {"plain", "dot", "dd"}
   DevChoices <- DevIdeal
+  MaxFaultAt = 0
 INVARIANTS Emit
 CHECK_DEADLOCK FALSE
